@@ -269,6 +269,9 @@ type c12RunResult struct {
 }
 
 func (p *c12Probe) invoke() string {
+	if p.Invoke != "" {
+		return p.Invoke
+	}
 	return "P()"
 }
 
@@ -353,11 +356,11 @@ func (s *c12Session) runProbe(invoke string, arm func(h *c12Hook)) *c12RunResult
 // next RunExpr, and the reference - which runs no probe in between - would otherwise start its next battery with it).
 func (s *c12Session) battery(directFirst bool, rot int) []string {
 	s.j++
-	const sentinels = 3
+	const sentinels = 5
 	out := make([]string, len(c12Battery))
-	order := []int{0, 1, 2}
+	order := []int{0, 1, 2, 3, 4}
 	if !directFirst {
-		order = []int{1, 0, 2}
+		order = []int{1, 2, 0, 3, 4}
 	}
 	rest := len(c12Battery) - sentinels - 1
 	for i := 0; i < rest; i++ {
